@@ -16,6 +16,10 @@ CHECKS = {
    "Seeded simulation of one real connection whose k-th sendall fails (EPIPE, ECONNRESET, single-argument timeouts as ssl raises them, EAGAIN from SO_SNDTIMEO, ETIMEDOUT), optionally after a partial send, with every later send failing too; k is derived from the fault-free send count of the same request. A sweep covers every (response kind, protocol) pair of a fixed world with k in {0,1,last} (quick) or every k and error class (thorough); seeded runs vary sizes, k, class, partial sends and server type. Checked: accept loop and socketserver.handle_error untouched, probe connection served, log record with client address and the injected class and no foreign EXCEPTION class, all seam-opened files closed and /proc/self/fd unchanged after the worker and a GC pass.",
    "Trusts the simulator; send failures are injected at sendall() granularity; exception classes already logged by the fault-free run of the same request are not attributed to the fault.",
    "deterministic simulation: send-fault injection at every write index of the simulated socket, open-file table + fd accounting, log oracle"),
+ "C10": ("exploration", "3.5",
+   "Seeded histories (5-40 operations: listings through any protocol incl. TLS variants, file create/delete/rename/rewrite, .names/.cap/.abstract edits, clock advances on both sides of the lifetime) run against one long-lived real server on a scratch tree with a simulated clock and simulated mtimes; lifetimes 0,1,2,180,3600; both directory handlers and server types. Every served listing must equal the fresh reference rendering of some tree state that was live within (now-L, now] (only the current state for L=0). Sampling of histories, no exhaustiveness.",
+   "Trusts the simulator and the reference server (the same pygopherd code run alone with cachetime 0 on a snapshot of the state). Monotone clock only. One known finding (D14) is listed in known_findings.json.",
+   "deterministic simulation: simulated clock + mtimes, seeded mutation/advance/request histories, history oracle against per-state reference renderings (explicit cache-age model)"),
 }
 
 NA = {
@@ -35,7 +39,6 @@ PENDING = {
  "C02": "claimed in DESIGN.md; check not built yet in this revision",
  "C03": "claimed in DESIGN.md; check not built yet in this revision",
  "C07": "claimed in DESIGN.md; check not built yet in this revision",
- "C10": "claimed in DESIGN.md; check not built yet in this revision",
  "C14": "claimed in DESIGN.md; check not built yet in this revision",
  "C19": "claimed in DESIGN.md; check not built yet in this revision",
 }
